@@ -61,6 +61,8 @@ struct World : public Server::Timer::ICallback
     if(x.failed)
     { // the send of this very call failed: the call reports it, nothing is accepted, onClosed follows
       if(ok) fail("write-true-after-error", vf::fmt("client %d: write() returned true although its send failed", x.id));
+      // the caller may give up on the client at once instead of waiting for onClosed ("if(!client.write(..)) server.remove(client)")
+      if(!failed && ch->choose(2) == 1) { note(vf::fmt("client %d removed by the caller of the failed write", x.id)); remove(x); }
       return;
     }
     if(!ok) { fail("write-failed", "write() returned false although the environment reported no error"); return; }
@@ -140,21 +142,33 @@ struct World : public Server::Timer::ICallback
   {
     ch = &chooser; tracing = trc; W = this;
     server = new Server();
+    // The server keeps failed clients in a small hash set keyed by the client object's address (8 buckets, address >> 3): the second
+    // client is taken from as many candidates as it needs to land in the bucket of the first one, so that the two really share a
+    // chain whenever both are queued; the other candidates are removed again before anything happens.
+    std::vector<std::pair<Server::Client*, Socket*> > spare;
     for(int i = 0; i < 2; ++i)
     {
       c[i].w = this; c[i].id = i; c[i].peer = new Socket();
       c[i].client = server->pair(c[i], *c[i].peer);
+      for(int tries = 0; i == 1 && c[i].client && tries < 64 && (((size_t)c[1].client - (size_t)c[0].client) >> 3) % 8 != 0; ++tries)
+      {
+        spare.push_back(std::make_pair(c[i].client, c[i].peer));
+        c[i].peer = new Socket();
+        c[i].client = server->pair(c[i], *c[i].peer);
+      }
       if(!c[i].client) { fprintf(stderr, "pair failed\n"); _exit(3); }
       c[i].fd = (int)c[i].client->getSocket().getFileDescriptor();
       fcntl((int)c[i].peer->getFileDescriptor(), F_SETFL, O_NONBLOCK);
     }
+    if((((size_t)c[1].client - (size_t)c[0].client) >> 3) % 8 == 0) vf::hit("colliding_client_addresses");
+    for(size_t i = 0; i < spare.size(); ++i) { server->remove(*spare[i].first); delete spare[i].second; }
     server->time(1, *this);
     server->run();
     peersRead();
     for(int i = 0; i < 2 && !failed; ++i)
     {
       Cl& x = c[i];
-      if(x.failed && !x.closedDelivered) fail("close-not-delivered", vf::fmt("a send of client %d failed but onClosed never followed", i));
+      if(x.failed && !x.closedDelivered && !x.removed) fail("close-not-delivered", vf::fmt("a send of client %d failed but onClosed never followed", i));
       if(x.removed || x.failed) continue;
       if(x.handedToOs != x.accepted.size()) fail("not-drained", vf::fmt("client %d: %d of %d accepted bytes were never handed to the OS", i, (int)(x.accepted.size() - x.handedToOs), (int)x.accepted.size()));
       else if(x.received != x.accepted) fail("stream", vf::fmt("peer %d received '", i) + vf::hex(x.received) + "', accepted data is '" + vf::hex(x.accepted) + "'");
